@@ -607,6 +607,7 @@ func c06r7(r *R) {
 		}
 	}
 	reach := c.reachable(roots, true, nil)
+	inReach := func(g *ssa.Function) bool { _, ok := reach[g]; return ok }
 	longLived := map[string]bool{"reverseproxy.HTTPHandler": true, "fingerprint.FingerprintHeaderInjector": true, "fingerprint.HTTP2FingerprintParam": true, "proxyserver.Server": true}
 	n := 0
 	o := r.Ob("C06.R7", "request-path-does-not-write-shared-config")
@@ -621,8 +622,35 @@ func c06r7(r *R) {
 		}
 		n++
 		eachInstr(f, func(i ssa.Instruction) {
+			// updates of atomics / sync.Map / captured cells that outlive the request: a memo or cache shared by all
+			// connections (only what this activation allocated, and the per-connection record, may be written)
+			if cc := callOf(i); cc != nil {
+				n := calleeName(cc)
+				mut := false
+				for _, suf := range []string{").Store", ").Swap", ").CompareAndSwap", ").Add", ").LoadOrStore", ").Delete", ").CompareAndDelete", ").And", ").Or"} {
+					if (strings.HasPrefix(n, "(*sync/atomic.") || strings.HasPrefix(n, "(*sync.Map)")) && strings.HasSuffix(n, suf) {
+						mut = true
+					}
+				}
+				if mut && len(cc.Args) > 0 {
+					root := addrRoot(cc.Args[0])
+					_, fresh := root.(*ssa.Alloc)
+					if al, isAl := root.(*ssa.Alloc); isAl && al.Parent() != f {
+						fresh = false
+					}
+					perConn := strings.Contains(c.Expr(cc.Args[0]), "metadata.FromContext(") || strings.HasPrefix(typeName(deref(root.Type())), "metadata.")
+					if !fresh && !perConn {
+						o.AtI(i).Fail("%s, reachable from the request path, updates %s through %s: state that outlives the request and is shared by all connections (a memo or cache of per-connection values)", funcName(f), c.Expr(cc.Args[0]), n)
+					}
+				}
+			}
 			st, ok := i.(*ssa.Store)
 			if !ok {
+				return
+			}
+			// a captured variable of an enclosing function that has long returned (a closure-held memo)
+			if fv, isFV := addrRoot(st.Addr).(*ssa.FreeVar); isFV && f.Parent() != nil && !inReach(f.Parent()) {
+				o.AtI(i).Fail("%s, reachable from the request path, assigns the captured variable %s of %s: state shared by every call of the closure, hence by all connections", funcName(f), fv.Name(), funcName(f.Parent()))
 				return
 			}
 			fa, ok := st.Addr.(*ssa.FieldAddr)
